@@ -632,9 +632,9 @@ func (e *Env) evalCall(x *ast.CallExpr) TV {
 			bt := body.V.(Scalar).T
 			rng := and(append([]string{le(lo, bv), lt(bv, hi)}, tf...)...)
 			if id.Name == "forallIn" {
-				return boolTV(forall([][2]string{{bv, "Int"}}, implies(rng, bt)))
+				return boolTV(forall([][2]string{{bv, "Int"}}, e.vc.rebase(bv, implies(rng, bt))))
 			}
-			return boolTV(exists([][2]string{{bv, "Int"}}, and(rng, bt)))
+			return boolTV(exists([][2]string{{bv, "Int"}}, e.vc.rebase(bv, and(rng, bt))))
 		case "forall", "exists":
 			fl, ok := x.Args[0].(*ast.FuncLit)
 			if !ok {
@@ -662,6 +662,9 @@ func (e *Env) evalCall(x *ast.CallExpr) TV {
 					if _, isPtr := under(t).(*types.Pointer); isPtr {
 						// quantification over pointers means: over the objects allocated in the state the clause is evaluated in
 						guard = and(guard, lt("0", bv), lt(bv, e.vc.allocOf(e.st)))
+						if nf := e.vc.notForeign(e.st, bv, t); nf != "true" { // H4 patch (allocset.go)
+							guard = and(guard, nf)
+						}
 					}
 				}
 			}
@@ -669,9 +672,21 @@ func (e *Env) evalCall(x *ast.CallExpr) TV {
 			body := n.evalBlock(fl.Body.List).V.(Scalar).T
 			guard = and(append([]string{guard}, e.vc.exitBinder()...)...)
 			if id.Name == "forall" {
-				return boolTV(forall(vars, implies(guard, body)))
+				fb := implies(guard, body)
+				for _, v := range vars {
+					if v[1] == "Int" {
+						fb = e.vc.rebase(v[0], fb)
+					}
+				}
+				return boolTV(forall(vars, fb))
 			}
-			return boolTV(exists(vars, and(guard, body)))
+			eb := and(guard, body)
+			for _, v := range vars {
+				if v[1] == "Int" {
+					eb = e.vc.rebase(v[0], eb)
+				}
+			}
+			return boolTV(exists(vars, eb))
 		case "typeIs":
 			// typeIs(x, "T") : dynamic type test on an interface value
 			a := e.eval(x.Args[0])
@@ -1055,4 +1070,121 @@ func isGhostStub(sf *SpecFunc) bool {
 	}
 	id, ok := c.Fun.(*ast.Ident)
 	return ok && id.Name == "panic"
+}
+
+// rebaseIndex: absolute-index form of a quantified slice index. If the bound variable bv occurs in the body as a
+// slice index "(+ OFF bv)" (OFF free of bv), the body is rewritten by the bijective substitution bv := bv - OFF, so
+// that the element term becomes "(select (select E arr) bv)": the bound variable is then the *absolute* index of the
+// backing array, which E-matching can instantiate from any ground element term (z3 normalises sums, so the relative
+// form "(+ off i)" is practically never matched). Sound: i -> i - OFF is a bijection on Int.
+func rebaseIndex(bv, body string) string {
+	isTok := func(s string, i, n int) bool {
+		if i > 0 {
+			c := s[i-1]
+			if c != ' ' && c != '(' {
+				return false
+			}
+		}
+		if i+n < len(s) {
+			c := s[i+n]
+			if c != ' ' && c != ')' {
+				return false
+			}
+		}
+		return true
+	}
+	hasTok := func(s string) bool {
+		for i := strings.Index(s, bv); i >= 0; {
+			if isTok(s, i, len(bv)) {
+				return true
+			}
+			j := strings.Index(s[i+1:], bv)
+			if j < 0 {
+				break
+			}
+			i += 1 + j
+		}
+		return false
+	}
+	// find "(+ OFF bv)" occurrences
+	counts := map[string]int{}
+	var order []string
+	for i := 0; i+3 < len(body); i++ {
+		if !strings.HasPrefix(body[i:], "(+ ") {
+			continue
+		}
+		j := i + 3
+		// parse one s-expression starting at j
+		k := j
+		if body[k] == '(' {
+			d := 0
+			for ; k < len(body); k++ {
+				if body[k] == '|' {
+					k++
+					for k < len(body) && body[k] != '|' {
+						k++
+					}
+					continue
+				}
+				if body[k] == '(' {
+					d++
+				} else if body[k] == ')' {
+					d--
+					if d == 0 {
+						k++
+						break
+					}
+				}
+			}
+		} else if body[k] == '|' {
+			k++
+			for k < len(body) && body[k] != '|' {
+				k++
+			}
+			k++
+		} else {
+			for k < len(body) && body[k] != ' ' && body[k] != ')' {
+				k++
+			}
+		}
+		off := body[j:k]
+		rest := " " + bv + ")"
+		if strings.HasPrefix(body[k:], rest) && !hasTok(off) && off != "" {
+			if counts[off] == 0 {
+				order = append(order, off)
+			}
+			counts[off]++
+		}
+	}
+	if len(order) == 0 {
+		return body
+	}
+	best := order[0]
+	for _, o := range order {
+		if counts[o] > counts[best] {
+			best = o
+		}
+	}
+	const mark = "\x00ABSIDX\x00"
+	out := strings.ReplaceAll(body, "(+ "+best+" "+bv+")", mark)
+	// remaining occurrences of the token bv -> (- bv OFF)
+	var sb strings.Builder
+	for i := 0; i < len(out); {
+		if strings.HasPrefix(out[i:], bv) && isTok(out, i, len(bv)) {
+			sb.WriteString("(- " + bv + " " + best + ")")
+			i += len(bv)
+			continue
+		}
+		sb.WriteByte(out[i])
+		i++
+	}
+	return strings.ReplaceAll(sb.String(), mark, bv)
+}
+
+// rebase applies rebaseIndex unless switched off (GCV_REBASE=0 or `option relative-index` on the function).
+func (vc *VC) rebase(bv, body string) string {
+	if vc.noRebase {
+		return body
+	}
+	return rebaseIndex(bv, body)
 }
